@@ -358,6 +358,15 @@ def m_tuple_cmp(it, a, ty, callee):
     return Adt(ORD, 1, ())
 
 
+def m_get_or_insert_with(it, a, ty, callee):
+    """Option::get_or_insert_with(&mut self, f) -> &mut T"""
+    p, f = a
+    v = it.load(p)
+    if v.variant == 0:
+        it.store(p, opt_some(it.call_value(f, [], None)))
+    return Ptr(p.cell, p.path + (0,))
+
+
 def m_checked_sub(it, a, ty, callee):
     x, y = a
     lt = it.binop('Lt', x, y)
@@ -705,6 +714,8 @@ def m_into(it, a, ty, callee):
     if src.startswith('impl ') or re.fullmatch(r'[A-Z]\w*', src):
         # generic parameter / impl Trait: use the run-time type of the argument
         rt = it.runtime_type(a[0])
+        if rt is None and isinstance(a[0], Seq) and a[0].kind == 'vec' and dst.startswith('std::vec::Vec<'):
+            return a[0]                     # a Vec handed to `T: Into<Vec<_>>`
         if rt is None:
             from ..adts import base_ty as _b
             raise Inconclusive('Into on unknown run-time type for ' + callee[:80])
@@ -880,6 +891,7 @@ def install(it):
     A(r'core::num::<impl [ui]\w+>::wrapping_shl', lambda it, a, ty, c: it.binop('Shl', a[0], a[1]))
     A(r'core::num::<impl [ui]\w+>::wrapping_shr', lambda it, a, ty, c: it.binop('Shr', a[0], a[1]))
     A(r'<&*(?:u|i)(?:8|16|32|64|128|size) as std::cmp::PartialOrd(<.*>)?>::(lt|le|gt|ge)', m_ref_int_cmp)
+    A(r'std::option::Option::<.*>::get_or_insert_with::<.*>', m_get_or_insert_with)
     A(r'<\(.*\) as std::cmp::Ord>::cmp', m_tuple_cmp)
     A(r'<(?:u|i)(?:8|16|32|64|128|size) as std::cmp::Ord>::cmp', lambda it, a, ty, c: it.binop('Cmp', deref(it, a[0]), deref(it, a[1])))
     A(r'<(?:u|i)(?:8|16|32|64|128|size) as std::cmp::Ord>::min', m_min_max('min'))
